@@ -80,9 +80,23 @@ def _build_edge_circuit(case):
     op = OperatorTemplate(name="op1", path=None, equations=["x' = -x + r_in", "z' = x - z"],
                           variables={"x": "variable(0.5)", "z": "output(0.25)", "r_in": "input(0.0)"})
     node = NodeTemplate(name="n1", path=None, operators=[op])
-    edges = [(f"{case['nodes'][s]}/op1/{'xz'[sv]}", f"{case['nodes'][t]}/op1/r_in", None,
-              {"weight": float(Fr(w)), "delay": int(Fr(d)) if isint else float(Fr(d))})
-             for (s, sv, t, w, d), isint in zip(case["edges"], case.get("delay_is_int") or [False] * len(case["edges"]))]
+    import numpy as np
+    conv = {"float": lambda d: float(Fr(d)), "int": lambda d: int(Fr(d)), "f32": lambda d: np.float32(float(Fr(d))),
+            "f64": lambda d: np.float64(float(Fr(d))), "i64": lambda d: np.int64(int(Fr(d)))}
+    types = case.get("delay_type") or ["int" if b else "float" for b in (case.get("delay_is_int") or [False] * len(case["edges"]))]
+    for (s, sv, t, w, d), ty in zip(case["edges"], types):
+        assert Fr(float(conv[ty](d))) == Fr(d), (d, ty)          # the delay is exactly representable in the type it is supplied in
+    if case.get("matrix"):
+        # all edges in one call: weight and delay MATRICES, rows = targets, columns = sources; the delay matrix has dtype float32/float64
+        n = len(case["nodes"])
+        W, D = np.zeros((n, n)), np.zeros((n, n), dtype=case["matrix"])
+        for s, sv, t, w, d in case["edges"]:
+            W[t, s], D[t, s] = float(Fr(w)), float(Fr(d))
+        c = CircuitTemplate(name="c", path=None, nodes={k: node for k in case["nodes"]})
+        c.add_edges_from_matrix(f"op1/{'xz'[case['edges'][0][1]]}", "op1/r_in", list(case["nodes"]), weight=W, edge_attr={"delay": D})
+        return c
+    edges = [(f"{case['nodes'][s]}/op1/{'xz'[sv]}", f"{case['nodes'][t]}/op1/r_in", None, {"weight": float(Fr(w)), "delay": conv[ty](d)})
+             for (s, sv, t, w, d), ty in zip(case["edges"], types)]
     return CircuitTemplate(name="c", path=None, nodes={k: node for k in case["nodes"]}, edges=edges)
 
 def _polyhist(css):
@@ -225,10 +239,16 @@ def impl(case):
         if kind == "vec":
             return _impl_vec(case, dt)
         c = _build_edge_circuit(case) if kind == "edge" else _build_node_circuit(case)
+        class Holder:                      # a history callable handed to get_run_func(hist=...): it must come back as the `hist` argument
+            f = None
+            def __call__(self, t):
+                return self.f(t)
+        holder = Holder() if case.get("hist_kwarg") else None
+        extra = {"hist": holder} if holder is not None else {}
         try:
             with contextlib.redirect_stdout(io.StringIO()):
                 func, args, names, smap = c.get_run_func("c10f", step_size=dt, file_name="c10mod", backend="default", solver=case["solver"],
-                                                         vectorize=False, float_precision="float64", in_place=False, clear=False)
+                                                         vectorize=False, float_precision="float64", in_place=False, clear=False, **extra)
         except Exception as e:
             return dict(pyr.errclass(e), stage="compile")
         names = list(names)
@@ -243,6 +263,8 @@ def impl(case):
         pos = [smap[k] for k in svars]
         assert all(isinstance(p, (int, np.integer)) for p in pos), smap
         has_hist = "hist" in names
+        if holder is not None and has_hist and args[names.index("hist")] is not holder:
+            return {"err": "hist-kwarg-ignored", "detail": str(type(args[names.index("hist")]))}
         outs = []
         for pt in case["points"]:
             a = list(args)
@@ -257,7 +279,10 @@ def impl(case):
                 css = [None] * len(svars)
                 for i, p in enumerate(pos):
                     css[p] = pt["hist"][i]
-                a[names.index("hist")] = _polyhist(css)
+                if holder is not None:
+                    holder.f = _polyhist(css)          # a[...] already is the holder
+                else:
+                    a[names.index("hist")] = _polyhist(css)
             a[names.index("dy")] = np.zeros(len(svars), dtype=np.float64)
             for j, n in pnames.items():
                 if n in names:
@@ -368,6 +393,7 @@ def gen_func(rng, neg_class=False, dt_class=False):
     case = dict(kind="func", vars=vars_, init=[str(Fr(rng.randint(-8, 8), 8)) for _ in range(nv)], parnames=parnames,
                 parinit=[str(Fr(rng.randint(1, 12), 8)) for _ in range(npar)], eqs=eqs, solver=solver, dt=str(dt), use_t=use_t)
     case["points"] = gen_points(rng, case, nv, npar, delay_pars)
+    case["hist_kwarg"] = rng.random() < 0.3      # the history callable is passed through get_run_func(hist=...) instead of being swapped in
     if dt_class:
         for p in case["points"]:
             p["t"] = str(rng.randint(1, 40))
@@ -399,22 +425,43 @@ def gen_edge(rng, one_class=False, step_class=False):
     for t in targets:
         s = rng.choice([i for i in range(nn) if i != t])
         edges.append([s, rng.choice([0, 1, 1]), t, str(Fr(rng.choice([-8, -6, -4, -2, -1, 2, 3, 6, 8]), 4)), str(rng.choice(ok_delays))])
-    # delays written as Python/YAML INTEGERS (2, 3 time units) next to float ones
-    is_int = [False] * len(edges)
-    for j in range(len(edges)):
-        if rng.random() < 0.3:
-            edges[j][4], is_int[j] = str(rng.choice([2, 3])), True
+    # the delay is supplied as a Python float / int, a numpy float32 / float64 / int64 scalar (integers: 2 or 3 time units), or all
+    # delays come as one float32 / float64 MATRIX through add_edges_from_matrix; all values are exactly representable in float32
+    types = [rng.choice(["float", "float", "f32", "f32", "f64", "int", "i64"]) for _ in edges]
+    for j, ty in enumerate(types):
+        if ty in ("int", "i64"):
+            edges[j][4] = str(rng.choice([2, 3]))
     if one_class:
         edges[rng.randrange(len(edges))][4] = "1"
     if step_class:
         edges[rng.randrange(len(edges))][4] = str(rng.choice([Fr(1, 8), Fr(1, 16), Fr(3, 32)]))
     nv = 2 * nn
     if one_class or step_class:
-        is_int = [False] * len(edges)
-    case = dict(kind="edge", delay_is_int=is_int, nodes=nodes, edges=edges, vars=[f"{n}.{v}" for n in nodes for v in "xz"], parnames=[f"w{j}" for j in range(len(edges))],
-                solver="scipy", dt="1/8", use_t=False)
+        types = [rng.choice(["float", "f32", "f64"]) for _ in edges]
+    matrix = None
+    if rng.random() < 0.3:
+        matrix = rng.choice(["float32", "float32", "float64"])
+        sv0 = edges[0][1]
+        for e in edges:
+            e[1] = sv0                                     # one source variable per add_edges_from_matrix call
+        types = ["f32" if matrix == "float32" else "f64"] * len(edges)
+    # fixed-step solvers put a ring buffer behind a delayed edge; C10 only ties that the edge IS delayed there: at the first call
+    # (fresh buffers) a delay of >= 2 steps delivers the buffer's initial 0, an undelayed edge would deliver the present value
+    solver = "euler" if (rng.random() < 0.3 and not step_class) else "scipy"
+    if solver == "euler":
+        # fixed step, vectorize=False: delayed edges leaving two DIFFERENT variables of one operator do not compile at all
+        # (PyRatesException "Buffer variable name collision ... {'source_idx_out0'}", ring-buffer branch, not C10's subject)
+        first = {}
+        for e in edges:
+            e[1] = first.setdefault(e[0], e[1])
+    case = dict(kind="edge", delay_type=types, matrix=matrix, nodes=nodes, edges=edges, vars=[f"{n}.{v}" for n in nodes for v in "xz"],
+                parnames=[f"w{j}" for j in range(len(edges))], solver=solver, dt="1/8", use_t=False)
     case["eqs"] = edge_eqs(case)
     case["points"] = gen_points(rng, case, nv, len(edges), set())
+    if solver == "euler":
+        case["points"] = case["points"][:1]
+        case["points"][0]["t"] = "0"
+        case["points"][0]["hist"] = [["0", "0", "0"] for _ in range(nv)]
     return case
 
 def _bits(q):
@@ -903,7 +950,10 @@ def check(ctx):
                 models_with_two_delays_on_one_variable=sum(1 for i in good if any(len({d for y, d in set(past_keys(cases[i])) if y == x}) >= 2 for x, _ in past_keys(cases[i]))),
                 models_delaying_a_variable_not_in_slot_0=sum(1 for i in good if any(outs[i]["pos"][x] != 0 for x, _ in past_keys(cases[i]))),
                 step_sizes=sorted({c["dt"] for c in cases}, key=lambda s: Fr(s))[:12],
-                integer_edge_delays=sum(sum(c.get("delay_is_int") or []) for c in cases if c["kind"] == "edge"),
+                edge_delay_types={ty: sum((c.get("delay_type") or []).count(ty) for c in cases if c["kind"] == "edge") for ty in ("float", "int", "f32", "f64", "i64")},
+                edge_delay_matrices={m: sum(1 for c in cases if c["kind"] == "edge" and c.get("matrix") == m) for m in ("float32", "float64")},
+                hist_passed_as_keyword=sum(1 for c in cases if c.get("hist_kwarg")),
+                fixed_step_edge_circuits=sum(1 for c in cases if c["kind"] == "edge" and c["solver"] == "euler"),
                 complex_valued_runs=sum(1 for c in cases if c.get("init_im")),
                 heun_runs=sum(1 for c in cases if c["kind"] == "run" and c["solver"] == "heun"),
                 adaptive_runs=dict(cases=sum(1 for c in cases if c["kind"] == "adapt"),
